@@ -27,6 +27,13 @@ HARNESSES = [
     H("k_probes_from_flags", "K-def-flags", ["C10"], fns=["probes_from_flags"]),
     H("k_with_params_flags", "K-def-flags", ["C01", "C09", "C10", "C11"],
       fns=["CompressorOxide::with_params", "ParamsOxide::new", "DictOxide::new", "change_window_bits_from_format"], cost=20),
+    # ---- K-lenDist ----
+    H("k_lz_one_match_roundtrip", "K-lenDist", ["C01", "C02", "C10"], cost=40,
+      fns=["record_match", "compress_lz_codes", "LZOxide::new", "LZOxide::write_code", "LZOxide::init_flag", "LZOxide::get_flag",
+           "LZOxide::consume_flag", "LZOxide::plant_flag", "BitBuffer::put_fast", "BitBuffer::flush", "OutputBufferOxide::put_bits",
+           "LEN_SYM", "LEN_EXTRA", "SMALL_DIST_SYM", "SMALL_DIST_EXTRA", "LARGE_DIST_SYM", "LARGE_DIST_EXTRA", "BITMASKS"]),
+    H("k_lz_literals2_roundtrip", "K-lenDist", ["C01", "C02", "C10"], cost=30, fns=["record_literal", "compress_lz_codes"]),
+    H("k_lz_literals4_roundtrip", "K-lenDist", ["C01", "C02", "C10"], cost=30, fns=["record_literal", "compress_lz_codes"]),
     # ---- K-dispatch ----
     H("k_dispatch", "K-dispatch", ["C01", "C02", "C09", "C10", "C11", "C12", "C14", "C16"],
       fns=["compress", "compress_inner", "flush_output_buffer", "CallbackOxide::new_callback_buf"], cost=60, timeout=900),
